@@ -369,8 +369,19 @@ func checkStatements(w *World, r *Result) {
 							r.bad("TPL-C05c", fi.Name, cons, pos, "the numbered placeholder `$%d` is filled by "+es(h.va.arg)+", not by columnsCount")
 						}
 					}
-					if strings.Contains(es(h.va.arg), "comparison") {
-						cmpHole = true
+					// the hole is (a local bound to) the result of columnsComparison
+					{
+						exprs := []ast.Expr{h.va.arg}
+						if id := identOf(h.va.arg); id != nil {
+							exprs = append(exprs, defsIn(info, fi.Decl, objOf(info, id))...)
+						}
+						for _, e := range exprs {
+							for _, f := range callsIn(info, e) {
+								if strings.HasSuffix(f, ".columnsComparison") {
+									cmpHole = true
+								}
+							}
+						}
 					}
 					// WHERE <joined comparisons> with arguments <joined accessors>: lists built in lock-step in one loop
 					if j, ok := ast.Unparen(h.va.arg).(*ast.CallExpr); ok && fullName(calleeOf(info, j)) == "strings.Join" {
@@ -608,22 +619,23 @@ func checkCompositeLockstep(w *World, r *Result) {
 			continue
 		}
 		info := fl.pkg.TypesInfo
-		// every condition under which an iteration is skipped: leading guards, and any continue in the body
-		var guards []string
-		ast.Inspect(fl.rs.Body, func(x ast.Node) bool {
-			bs, ok := x.(*ast.BranchStmt)
-			if !ok || bs.Tok.String() != "continue" {
+		// the fields a loop selects: the conditions shared by everything it accumulates (canonical, whatever the
+		// spelling of the filter), and the conditions of any `continue` that is not already reflected there
+		guards, accs := loopFilterSplit(info, fl.fn.Decl, fl.rs, fl.subst)
+		if len(accs) == 0 {
+			ast.Inspect(fl.rs.Body, func(x ast.Node) bool {
+				bs, ok := x.(*ast.BranchStmt)
+				if !ok || bs.Tok.String() != "continue" {
+					return true
+				}
+				cs := reachConds(info, fl.fn.Decl, fl.rs, bs, fl.subst)
+				if len(cs) == 0 {
+					guards = append(guards, "<unconditional continue>")
+				}
+				guards = append(guards, "skip when "+strings.Join(cs, " && "))
 				return true
-			}
-			for _, c := range condSet(info, pathCondsNoLoop(fl.fn, bs), fl.subst) {
-				guards = append(guards, c)
-			}
-			if len(pathCondsNoLoop(fl.fn, bs)) == 0 {
-				guards = append(guards, "<unconditional continue>")
-			}
-			return true
-		})
-		guards = append(guards, leadingGuards(info, fl.rs.Body, fl.subst)...)
+			})
+		}
 		sort.Strings(guards)
 		loops = append(loops, seen{fl, uniqStr(guards)})
 	}
